@@ -289,8 +289,16 @@ def run_atom(sx, cfg, env):
             sx.cover("rejected")
             sx.observe("outcome", "rejected:" + ("EncodeError" if type(e).__name__ == "EncodeError"
                                                  else "OdxError"))
-            if prop == "C02" and indom is not None:
-                sx.fail("representable-value-is-encoded")
+            if prop == "C02":
+                if indom is not None:
+                    sx.fail("representable-value-is-encoded")
+                else:
+                    try:
+                        representable = ref_pdu(a, v) is not None
+                    except odxref.Reject:
+                        representable = False
+                    if representable:
+                        sx.fail("representable-value-is-encoded")
             return
         except Exception as e:  # noqa: BLE001
             sx.observe("outcome", "foreign:" + type(e).__name__)
@@ -571,7 +579,8 @@ def atoms(tier, seed):
                             ptype=pt, cmname=name))
     # BIT-MASK (plain and condensed) on integers
     for dtp in ("A_UINT32", "A_INT32"):
-        for bl, mask in ((8, 0x0F), (8, 0xA5), (16, 0xF00F), (16, 0x3FC), (12, 0x555), (24, 0xFF00FF)):
+        for bl, mask in ((8, 0x0F), (8, 0xA5), (16, 0xF00F), (16, 0x3FC), (12, 0x555), (24, 0xFF00FF),
+                         (8, 0x80), (8, 0x01), (16, 0x0100)):
             for condensed in (None, True):
                 for bitpos in (0, 2):
                     for hl in (True, False):
